@@ -490,7 +490,6 @@ package keeper
 //@   let pl = POOL(poolID)
 //@   uses ridxRange(POOL(poolID).Rules, "")
 //@   uses ridxHit(POOL(poolID).Rules, 0)
-//@   uses coinsListD(reward, "")
 //@   modifies active, ruleF, pools, bal
 //@   invariant #1 idx:  rangeindex >= 0 - 1 && rangeindex < len(rules) && len(rules) == len(pool.Rules)
 //@   invariant #1 frame: active == old(active) && pools == set(old(pools), pool.Id, with(pool, "Rules", zero(pool.Rules)))
@@ -538,7 +537,7 @@ package keeper
 // so the new end height spends, per denomination, at most the available budget
 // in product form: the blocks of the new schedule cost no budget more than is available to it
 //@   ensures end_prod: err == nil ==> (forall j:Int :: 0 <= j && j < len(rules) ==> rules[j].RewardPerBlock * availableHeight <= amt(availableReward, rules[j].Reward))
-//@   by end_prod: ens:end_min, ens:list_final, uses:coinsListD, req
+//@   by end_prod: ens:end_min, ens:list_final, ens:avail_list, ens:authorized, req
 // (unless the 64-bit height arithmetic wrapped: budgets worth more than 2^63 blocks)
 //@   let sched0 = ite(pl.StartHeight <= height, height, pl.StartHeight)
 //@   ensures end_exact: err == nil && POOL(poolID).EndHeight >= sched0 ==> POOL(poolID).EndHeight - max(height, pl.StartHeight) == availableHeight
